@@ -521,3 +521,14 @@ def check(ctx):
         f.rule = 'C02.TOKENS(' + f.rule + ')'
     for o in ctx.obligations[no:]:
         o['rule'] = 'C02.TOKENS(' + o['rule'] + ')'
+    # a list rule never yields an AND over nothing (which would allow)
+    nf2, no2 = len(ctx.findings), len(ctx.obligations)
+    c01.check_list(ctx, classes, empty_and_rule='C02.TRUE-GUARD')
+    ctx.findings[nf2:] = [f for f in ctx.findings[nf2:]
+                          if f.rule == 'C02.TRUE-GUARD']
+    ctx.obligations[no2:] = [o for o in ctx.obligations[no2:]
+                             if o['rule'] == 'C02.TRUE-GUARD']
+    # ... and only if every rule text goes through tokenizer + table at all
+    # (no fast path that hands a text to the single-check parser directly)
+    ctx.borrow('C02.TOKENS', c01.check_text_driver, pstate,
+               only=['C01.TEXT-DRIVER'])
